@@ -397,6 +397,20 @@ func structuralLoop(h *ssa.BasicBlock) string {
 
 // Call records progress events: a consuming read of at least one byte from the reader.
 func (c *Checker) Call(st *pathint.State, call ssa.CallInstruction, callee string, args []pathint.Val) {
+	if n := pathint.BigEndianWidth(callee); n > 0 && len(args) == 2 {
+		// binary.BigEndian.UintN(bs) indexes bs[n-1]: panics on a shorter slice
+		if args[1].K == pathint.KSlice {
+			c.require(st, "P2", call, "bigendian", args[1].S.Len.AddC(-int64(n)), "the slice handed to binary.BigEndian.UintN holds at least N/8 bytes")
+		} else {
+			key := c.keyOfCall(call, "bigendian")
+			s := c.siteByKey("P2", key, c.P.Pos(call.Pos()), "the slice handed to binary.BigEndian.UintN holds at least N/8 bytes")
+			s.paths++
+			s.failed++
+			if s.example == "" {
+				s.example = "length of the slice is not tracked by the analyser"
+			}
+		}
+	}
 	switch callee {
 	case "io.ReadFull":
 		st.Mark("may:read")
